@@ -66,6 +66,7 @@ SKEL = {
     "if_ops": "{% if x == y %}e{% endif %}{% if x != y and z %}n{% endif %}{% if x or y and z %}o{% endif %}{% if not x and (y or z) %}p{% endif %}",
     "if_contains": "{% if xs contains x %}c{% endif %}{% if d contains 'k' %}k{% endif %}{% if x contains 'a' %}a{% else %}-{% endif %}",
     "if_lt": "{% if x < y %}lt{% elsif x >= y %}ge{% endif %}",
+    "if_all_ops": "{% if x <= y %}le{% endif %}{% if x > y %}gt{% endif %}{% if x != y %}ne{% endif %}{% if x <> y %}lg{% endif %}{% if y >= x %}ge{% endif %}{% if y < x %}lt{% endif %}{% if xs <= xs %}L{% endif %}{% if d >= d %}D{% endif %}{{ 'a' if x <= y else 'b' }}{{ 'a' if y >= nothing else 'b' }}",
     "if_empty_blank": "{% if x == empty %}e{% endif %}{% if x == blank %}b{% endif %}{% if xs == empty %}E{% endif %}{% if x == nil %}n{% endif %}",
     "unless_chain": "{% unless x %}a{% elsif y %}b{% else %}c{% endunless %}",
     "case_when": "{% case x %}{% when 1 %}one{% when y, 'a' %}y-or-a{% when z or 2 %}z2{% else %}other{% endcase %}",
@@ -173,7 +174,7 @@ CONDITIONS = []
 _QUICK = {"out_bracket_root", "out_nested_path", "out_filters", "out_ternary", "if_chain", "if_ops", "unless_chain", "case_when", "for_args",
           "for_continue", "for_break", "tablerow_args", "capture", "cycle", "ifchanged", "liquid_tag", "include_with_for", "include_dir_name",
           "include_break", "render_with_for", "render_dir_name", "render_missing", "extends_chain", "macro_call", "with_tag", "snippet",
-          "translate", "counters", "block_standalone", "render_error_inside", "if_lt", "if_contains", "out_range", "gettext_filters"}
+          "translate", "counters", "block_standalone", "render_error_inside", "if_lt", "if_all_ops", "if_contains", "out_range", "gettext_filters"}
 _QUICK_STR = {"out_bracket_root", "out_filters", "out_string_ops", "if_contains", "if_empty_blank", "case_when", "for_hash_string", "include_with_for",
               "render_with_for", "translate", "capture", "out_ternary"}
 for _k in SKEL:
@@ -421,9 +422,12 @@ def _loader_case(kind, i, nskey, ns, g, second):
             snap(lambda: e2.get_template(lname(i), **kw))
         a = snap(lambda: e1.get_template(lname(i), globals=gl, **kw))
         b = snap(lambda: drive(e2.get_template_async(lname(i), globals=gl, **kw)))
+        # once more on the warm caches (sync after sync, async after async: the up-to-date checks of both kinds run)
+        a2 = snap(lambda: e1.get_template(lname(i), **kw))
+        b2 = snap(lambda: drive(e2.get_template_async(lname(i), **kw)))
     finally:
         FS.asyncio = saved
-    return a == b
+    return a == b and a2 == b2
 
 
 CONDITIONS.append({"fn": "c01_loaders", "quick": 100, "thorough": 400, "sel_only": True})
@@ -449,29 +453,71 @@ def an_snapshot(a):
     return out
 
 
-def c01_analyze(i: int) -> bool:
+HELPERS = ("variables", "variable_paths", "variable_segments", "global_variables", "global_variable_paths",
+           "global_variable_segments", "filter_names", "tag_names")
+
+
+def _analyze_case(i, partials):
+    name = AN_SKEL[i]
+    if name not in T:
+        return True
+    t = T[name]
+    ok = True
+    try:
+        a = ("ok", an_snapshot(t.analyze(include_partials=partials)))
+    except Exception as e:
+        a = ("err", type(e).__name__)
+    try:
+        b = ("ok", an_snapshot(drive(t.analyze_async(include_partials=partials))))
+    except Exception as e:
+        b = ("err", type(e).__name__)
+    ok = ok and a == b
+    for hname in HELPERS:
+        try:
+            ra = ("ok", repr(getattr(t, hname)(include_partials=partials)))
+        except Exception as e:
+            ra = ("err", type(e).__name__)
+        try:
+            rb = ("ok", repr(drive(getattr(t, hname + "_async")(include_partials=partials))))
+        except Exception as e:
+            rb = ("err", type(e).__name__)
+        ok = ok and ra == rb
+    # Environment.render / analyze_tags convenience twins
+    src = SKEL[name]
+    try:
+        ra = ("ok", ENV.render(src, x=1, y="a", z=True, xs=[0, 1], d={"k": "a"}))
+    except Exception as e:
+        ra = ("err", type(e).__name__)
+    try:
+        rb = ("ok", drive(ENV.render_async(src, x=1, y="a", z=True, xs=[0, 1], d={"k": "a"})))
+    except Exception as e:
+        rb = ("err", type(e).__name__)
+    ok = ok and ra == rb
+    for pname in ("p", "mid", "loop"):
+        try:
+            ta = ENV.analyze_tags(pname)
+            ra = ("ok", repr((ta.all_tags, ta.tags, ta.unclosed_tags, ta.unexpected_tags, ta.unknown_tags)))
+        except Exception as e:
+            ra = ("err", type(e).__name__)
+        try:
+            tb = drive(ENV.analyze_tags_async(pname))
+            rb = ("ok", repr((tb.all_tags, tb.tags, tb.unclosed_tags, tb.unexpected_tags, tb.unknown_tags)))
+        except Exception as e:
+            rb = ("err", type(e).__name__)
+        ok = ok and ra == rb
+    return ok
+
+
+def c01_analyze(i: int, partials: bool) -> bool:
     """
     pre: 0 <= i <= 12
     post: _
     """
+    # analyze(), every convenience accessor, Environment.render and Environment.analyze_tags: sync vs async
     if excluded("c01_analyze", locals()):
         return True
-    name = None
-    for j in range(len(AN_SKEL)):
-        if i == j:
-            name = AN_SKEL[j]
-    if name is None or name not in T:
-        return True
-    t = T[name]
-    try:
-        a = ("ok", an_snapshot(t.analyze()))
-    except Exception as e:
-        a = ("err", type(e).__name__)
-    try:
-        b = ("ok", an_snapshot(drive(t.analyze_async())))
-    except Exception as e:
-        b = ("err", type(e).__name__)
-    return finish(a == b)
+    i, partials = cint(i, 0, 12), cbool(partials)
+    return finish(untraced(lambda: _analyze_case(i, partials)))
 
 
 CONDITIONS.append({"fn": "c01_analyze", "quick": 60, "thorough": 120, "sel_only": True})
